@@ -1,6 +1,7 @@
 (* C06 — property theorems only (each closed by [exact]) + Print Assumptions. *)
 From Coq Require Import ZArith List.
-From Verif Require Import Common.Bytes Collect.TopN Collect.TopNHeap Collect.TopNPaging Collect.TopNBefore.
+From Verif Require Import Common.Bytes Collect.TopN Collect.TopNHeap Collect.TopNPaging Collect.TopNBefore
+  Collect.TopNAliasModel Collect.TopNAlias.
 Import ListNotations.
 Local Open Scope Z_scope.
 
@@ -75,3 +76,48 @@ Theorem C06_heap_store_is_pq : forall so,
                   Permutation.Permutation (x :: h') h /\ forall y, In y h' -> collector_cmp so y x <= 0).
 Proof. exact heap_store_is_pq. Qed.
 Print Assumptions C06_heap_store_is_pq.
+
+(* ---------- paging through an IndexAlias (Collect/TopNAliasModel.v: MultiSearch as transcribed) ----------
+   whenever the sort keys separate all the matches of all members, an alias over any number of
+   member indexes returns — ids in order, Total, MaxScore — exactly what ONE index holding all the
+   members' matches returns, for From/Size, SearchAfter and SearchBefore *)
+Theorem C06_alias_is_one_index : forall so size p cs,
+  keys_distinct so (concat cs) ->
+  view (alias_search so size p cs) = view (search so size p (concat cs)).
+Proof. exact alias_is_one_index. Qed.
+Print Assumptions C06_alias_is_one_index.
+
+(* ... hence every alias page is the requested slice of all matches in the requested order *)
+Theorem C06_alias_from_is_slice : forall so size from cs,
+  keys_distinct so (concat cs) ->
+  view (alias_search so size (PFrom from) cs) =
+  Some (map did (spec_page so size from (concat cs)), spec_total (concat cs), spec_max_score (concat cs)).
+Proof. exact alias_from_is_slice. Qed.
+Print Assumptions C06_alias_from_is_slice.
+
+Theorem C06_alias_after_next_page : forall so size cs i x,
+  keys_distinct so (concat cs) -> nth_error (sorted_matches so (concat cs)) i = Some x ->
+  view (alias_search so size (PAfter (after_of x)) cs) =
+  Some (map did (firstn size (skipn (S i) (sorted_matches so (concat cs)))),
+        spec_total (concat cs), spec_max_score (concat cs)).
+Proof. exact alias_after_next_page. Qed.
+Print Assumptions C06_alias_after_next_page.
+
+Theorem C06_alias_before_prev_page : forall so size cs i x,
+  keys_distinct so (concat cs) -> nth_error (sorted_matches so (concat cs)) i = Some x ->
+  view (alias_search so size (PBefore (after_of x)) cs) =
+  Some (map did (skipn (i - size) (firstn i (sorted_matches so (concat cs)))),
+        spec_total (concat cs), spec_max_score (concat cs)).
+Proof. exact alias_before_prev_page. Qed.
+Print Assumptions C06_alias_before_prev_page.
+
+(* the first K of the sorted concatenation of every part's first K are the first K of everything
+   sorted (any comparison that is a strict total order on hits with different hit numbers) *)
+Theorem C06_merge_topK : forall cmp,
+  (forall a b, cmp b a = - cmp a b) ->
+  (forall a b c, cmp a b <= 0 -> cmp b c <= 0 -> cmp a c <= 0) ->
+  (forall a b, cmp a b = 0 -> hit a = hit b) ->
+  forall K Fs, TopNSorted.uhits (concat Fs) ->
+  top cmp K (concat (map (top cmp K) Fs)) = top cmp K (concat Fs).
+Proof. exact merge_topK. Qed.
+Print Assumptions C06_merge_topK.
